@@ -150,92 +150,96 @@ open I18n.CliState
 variable {K K' V O F : Type} [DecidableEq K']
 variable {proj : K → K'} {f : K → V} (unpackDeb : O → Bool)
 variable (checkRegular : O → F → Prog K V) (checkDeb : O → F → Option (Prog K V))
+variable (colourOf : Bool → Bool → Bool) (render : Bool → String → String)
 
 /-- **No history**: in every reachable global state, after ANY list of files checked earlier in the same process (any
     prefix, any permutation, any repetition — `hist` is arbitrary), the lines printed for `file` are those of the
     file checked alone in a fresh process: `out o file` mentions neither `g` nor `hist`. -/
-theorem no_history (hkey : KeyDetermines proj f) (o : O) (g : G K' V) (hg : Inv proj f g) (hist : List F) (file : F) :
-    (step proj f unpackDeb checkRegular checkDeb o (seqRun proj f unpackDeb checkRegular checkDeb o g hist).1 file).2
-      = .ok (out f unpackDeb checkRegular checkDeb o file) :=
-  (step_inv unpackDeb checkRegular checkDeb hkey o _ file
-    (seqRun_inv unpackDeb checkRegular checkDeb hkey o hist g hg).2).1
+theorem no_history (hkey : KeyDetermines proj f) (hcol : IgnoresRedirect colourOf) (o : O) (g : G K' V) (hg : Inv proj f t g) (hist : List F) (file : F) :
+    (step proj f unpackDeb checkRegular checkDeb colourOf render o (seqRun proj f unpackDeb checkRegular checkDeb colourOf render o g hist).1 file).2
+      = .ok (out f unpackDeb checkRegular checkDeb colourOf render t o file) :=
+  (step_inv unpackDeb checkRegular checkDeb colourOf render hkey hcol o _ file
+    (seqRun_inv unpackDeb checkRegular checkDeb colourOf render hkey hcol o hist g hg).2).1
 
 /-- the blocks printed by the sequential loop are, one by one, the single-run outputs -/
-theorem seq_blocks_are_single_runs (hkey : KeyDetermines proj f) (o : O) :
-    ∀ (files : List F) (g : G K' V), Inv proj f g →
-      seqBlocks proj f unpackDeb checkRegular checkDeb o g files
-        = files.map (fun p => .ok (out f unpackDeb checkRegular checkDeb o p)) := by
+theorem seq_blocks_are_single_runs (hkey : KeyDetermines proj f) (hcol : IgnoresRedirect colourOf) (o : O) :
+    ∀ (files : List F) (g : G K' V), Inv proj f t g →
+      seqBlocks proj f unpackDeb checkRegular checkDeb colourOf render o g files
+        = files.map (fun p => .ok (out f unpackDeb checkRegular checkDeb colourOf render t o p)) := by
   intro files
   induction files with
   | nil => intro g _; rfl
   | cons file rest ih =>
     intro g hg
-    have hs := step_inv unpackDeb checkRegular checkDeb hkey o g file hg
+    have hs := step_inv unpackDeb checkRegular checkDeb colourOf render hkey hcol o g file hg
     simp only [seqBlocks, List.map_cons, hs.1, ih _ hs.2]
 
 /-- permuting the argument list permutes the blocks and changes none of them -/
-theorem no_history_perm (hkey : KeyDetermines proj f) (o : O) (g : G K' V) (hg : Inv proj f g) (l1 l2 : List F)
+theorem no_history_perm (hkey : KeyDetermines proj f) (hcol : IgnoresRedirect colourOf) (o : O) (g : G K' V) (hg : Inv proj f t g) (l1 l2 : List F)
     (h : l1.Perm l2) :
-    (seqBlocks proj f unpackDeb checkRegular checkDeb o g l1).Perm
-      (seqBlocks proj f unpackDeb checkRegular checkDeb o g l2) := by
-  rw [seq_blocks_are_single_runs unpackDeb checkRegular checkDeb hkey o l1 g hg,
-      seq_blocks_are_single_runs unpackDeb checkRegular checkDeb hkey o l2 g hg]
+    (seqBlocks proj f unpackDeb checkRegular checkDeb colourOf render o g l1).Perm
+      (seqBlocks proj f unpackDeb checkRegular checkDeb colourOf render o g l2) := by
+  rw [seq_blocks_are_single_runs unpackDeb checkRegular checkDeb colourOf render hkey hcol o l1 g hg,
+      seq_blocks_are_single_runs unpackDeb checkRegular checkDeb colourOf render hkey hcol o l2 g hg]
   exact h.map _
 
 /-- **Multi-file output = concatenation of the single-file outputs**, at full strength: for every reachable global state,
     every job count `j`, every assignment of tasks to pool workers and every execution order `sched` in which each task is
     run (workers keep their own state between the tasks they get). -/
-theorem multi_file_concat (hkey : KeyDetermines proj f) (o : O) (j : Nat) (g : G K' V) (hg : Inv proj f g)
+theorem multi_file_concat (hkey : KeyDetermines proj f) (hcol : IgnoresRedirect colourOf) (o : O) (j : Nat) (g : G K' V) (hg : Inv proj f t g)
     (paths : List F) (sched : List (Nat × Nat)) (hall : ∀ i, i < paths.length → i ∈ sched.map (·.1)) :
-    (CliState.checkAll proj f unpackDeb checkRegular checkDeb o j g paths sched).2
-      = .ok ((paths.map (out f unpackDeb checkRegular checkDeb o)).flatten) := by
+    (CliState.checkAll proj f unpackDeb checkRegular checkDeb colourOf render o j g paths sched).2
+      = .ok ((paths.map (out f unpackDeb checkRegular checkDeb colourOf render t o)).flatten) := by
   unfold CliState.checkAll
   split
-  · exact (seqRun_inv unpackDeb checkRegular checkDeb hkey o paths g hg).1
+  · exact (seqRun_inv unpackDeb checkRegular checkDeb colourOf render hkey hcol o paths g hg).1
   · simp only
     have : (List.range paths.length).map (fun i =>
-        ((parExec proj f unpackDeb checkRegular checkDeb o paths sched (fun _ => g)).find? (fun q => q.1 == i)).map (·.2))
-        = (paths.map (out f unpackDeb checkRegular checkDeb o)).map (fun x => some (Except.ok x)) := by
+        ((parExec proj f unpackDeb checkRegular checkDeb colourOf render o paths sched (fun _ => g)).find? (fun q => q.1 == i)).map (·.2))
+        = (paths.map (out f unpackDeb checkRegular checkDeb colourOf render t o)).map (fun x => some (Except.ok x)) := by
       apply List.ext_getElem
       · simp
       · intro i h1 h2
         simp only [List.getElem_map, List.getElem_range]
         have hi : i < paths.length := by simpa using h1
-        exact parExec_find unpackDeb checkRegular checkDeb hkey o paths sched _ (fun _ => hg) i paths[i]
+        exact parExec_find unpackDeb checkRegular checkDeb colourOf render hkey hcol o paths sched _ (fun _ => hg) i paths[i]
           (List.getElem?_eq_getElem hi) (hall i hi)
     rw [this, collect_all_ok]
 
 /-- a single-file invocation (`-j 1`, nothing scheduled) prints `out o file` -/
-theorem single_file_run (hkey : KeyDetermines proj f) (o : O) (g : G K' V) (hg : Inv proj f g) (file : F) :
-    (CliState.checkAll proj f unpackDeb checkRegular checkDeb o 1 g [file] []).2
-      = .ok (out f unpackDeb checkRegular checkDeb o file) := by
-  have h := (seqRun_inv unpackDeb checkRegular checkDeb hkey o [file] g hg).1
+theorem single_file_run (hkey : KeyDetermines proj f) (hcol : IgnoresRedirect colourOf) (o : O) (g : G K' V) (hg : Inv proj f t g) (file : F) :
+    (CliState.checkAll proj f unpackDeb checkRegular checkDeb colourOf render o 1 g [file] []).2
+      = .ok (out f unpackDeb checkRegular checkDeb colourOf render t o file) := by
+  have h := (seqRun_inv unpackDeb checkRegular checkDeb colourOf render hkey hcol o [file] g hg).1
   simpa [CliState.checkAll] using h
 
-/-- the state `main` hands to `check_all`, starting from a freshly imported interpreter, satisfies the invariant -/
-theorem fresh_patched_inv : ∀ g1, patchEnvironment (fresh : G K' V) = .ok g1 → Inv proj f g1 := by
+/-- the state `main` hands to `check_all`, starting from a freshly imported interpreter on a stdout of kind `tty`, satisfies
+    the invariant (with terminal state `tty`) -/
+theorem fresh_patched_inv (tty : Bool) :
+    ∀ g1, patchEnvironment (initializeTerminal tty (fresh : G K' V)) = .ok g1 → Inv proj f tty g1 := by
   intro g1 h
-  simp only [patchEnvironment, fresh] at h
+  simp only [patchEnvironment, initializeTerminal, fresh] at h
   cases h
-  exact ⟨rfl, consistent_nil proj f⟩
+  exact ⟨rfl, consistent_nil proj f, rfl⟩
 
-/-- **`main` end to end**: from a fresh process, for every file list, job count and schedule, `main` raises neither
-    `EnvironmentAlreadyPatched` nor `EnvironmentNotPatched`, exits with status 0 and prints the concatenation, in argument
-    order, of what `main` prints for each file alone with `-j 1`. -/
-theorem main_concat_of_single_runs (hkey : KeyDetermines proj f) (o : O) (j : Nat) (files : List F)
-    (sched : List (Nat × Nat)) (hall : ∀ i, i < files.length → i ∈ sched.map (·.1)) :
-    CliState.main proj f unpackDeb checkRegular checkDeb o j fresh files sched
-      = (.ok ((files.map (out f unpackDeb checkRegular checkDeb o)).flatten), 0)
-    ∧ ∀ file, CliState.main proj f unpackDeb checkRegular checkDeb o 1 fresh [file] []
-      = (.ok (out f unpackDeb checkRegular checkDeb o file), 0) := by
-  have hinv : Inv proj f ({ patched := true, cache := [] } : G K' V) := ⟨rfl, consistent_nil proj f⟩
-  have hp : patchEnvironment (fresh : G K' V) = .ok { patched := true, cache := [] } := rfl
+/-- **`main` end to end**: from a fresh process whose stdout is of kind `tty` (a colour terminal or not), for every file list,
+    job count and schedule, `main` raises neither `EnvironmentAlreadyPatched` nor `EnvironmentNotPatched`, exits with status 0
+    and prints the concatenation, in argument order, of what `main` prints for each file alone with `-j 1` ON THE SAME KIND OF
+    STDOUT. -/
+theorem main_concat_of_single_runs (hkey : KeyDetermines proj f) (hcol : IgnoresRedirect colourOf) (o : O) (j : Nat) (tty : Bool)
+    (files : List F) (sched : List (Nat × Nat)) (hall : ∀ i, i < files.length → i ∈ sched.map (·.1)) :
+    CliState.main proj f unpackDeb checkRegular checkDeb colourOf render o j tty fresh files sched
+      = (.ok ((files.map (out f unpackDeb checkRegular checkDeb colourOf render tty o)).flatten), 0)
+    ∧ ∀ file, CliState.main proj f unpackDeb checkRegular checkDeb colourOf render o 1 tty fresh [file] []
+      = (.ok (out f unpackDeb checkRegular checkDeb colourOf render tty o file), 0) := by
+  have hinv : Inv proj f tty ({ patched := true, cache := [], terminal := tty } : G K' V) := ⟨rfl, consistent_nil proj f, rfl⟩
+  have hp : patchEnvironment (initializeTerminal tty (fresh : G K' V)) = .ok { patched := true, cache := [], terminal := tty } := rfl
   constructor
   · simp only [CliState.main, hp]
-    rw [multi_file_concat unpackDeb checkRegular checkDeb hkey o j _ hinv files sched hall]
+    rw [multi_file_concat unpackDeb checkRegular checkDeb colourOf render hkey hcol o j _ hinv files sched hall]
   · intro file
     simp only [CliState.main, hp]
-    rw [single_file_run unpackDeb checkRegular checkDeb hkey o _ hinv file]
+    rw [single_file_run unpackDeb checkRegular checkDeb colourOf render hkey hcol o _ hinv file]
 
 omit [DecidableEq K'] in
 /-- the once-flag does its job: a second `patch_environment` in the same process is refused, and a Checker created
@@ -245,20 +249,73 @@ theorem patch_environment_once (g : G K' V) (hg : g.patched = true) :
   simp [patchEnvironment, hg]
 
 theorem unpatched_checker_refused (o : O) (g : G K' V) (hg : g.patched = false) (file : F) :
-    step proj f unpackDeb checkRegular checkDeb o g file = (g, .error .environmentNotPatched) := by
+    step proj f unpackDeb checkRegular checkDeb colourOf render o g file = (g, .error .environmentNotPatched) := by
   simp [step, hg]
 
 /-- `check_file_s` leaves `sys.stdout` as it found it, whatever `check_file` did (kind scopedRedirect), and captures exactly
     what `check_file` would have printed -/
-theorem check_file_s_is_check_file_captured (hkey : KeyDetermines proj f) (o : O) (g : G K' V) (hg : Inv proj f g) (file : F) :
-    (checkFileS proj f unpackDeb checkRegular checkDeb o g file).1.captured = g.captured
-    ∧ (checkFileS proj f unpackDeb checkRegular checkDeb o g file).2
-        = (step proj f unpackDeb checkRegular checkDeb o g file).2 := by
+theorem check_file_s_is_check_file_captured (hkey : KeyDetermines proj f) (hcol : IgnoresRedirect colourOf) (o : O) (g : G K' V) (hg : Inv proj f t g) (file : F) :
+    (checkFileS proj f unpackDeb checkRegular checkDeb colourOf render o g file).1.captured = g.captured
+    ∧ (checkFileS proj f unpackDeb checkRegular checkDeb colourOf render o g file).2
+        = (step proj f unpackDeb checkRegular checkDeb colourOf render o g file).2 := by
   refine ⟨rfl, ?_⟩
-  rw [(checkFileS_inv unpackDeb checkRegular checkDeb hkey o g file hg).1,
-      (step_inv unpackDeb checkRegular checkDeb hkey o g file hg).1]
+  rw [(checkFileS_inv unpackDeb checkRegular checkDeb colourOf render hkey hcol o g file hg).1,
+      (step_inv unpackDeb checkRegular checkDeb colourOf render hkey hcol o g file hg).1]
 
 end State
+
+/-! ### The kind of stdout as a dimension of "for every -j" (seeded change X1-b)
+
+`Checker.tag` formats with `color=True`: whether escape sequences come out is decided by the terminal state of the PROCESS,
+set once by `initialize_terminal` from the real stdout and inherited by forked workers (`colourOfCode`).  X1-b asks
+`sys.stdout.isatty()` inside `tag()` instead: in a pool worker `sys.stdout` is the StringIO of `check_file_s`. -/
+section Colour
+open I18n.CliState I18n.CliWitness
+variable {K K' V O F : Type} [DecidableEq K']
+variable {proj : K → K'} {f : K → V} (unpackDeb : O → Bool)
+variable (checkRegular : O → F → Prog K V) (checkDeb : O → F → Option (Prog K V)) (render : Bool → String → String)
+
+theorem code_ignores_redirect : IgnoresRedirect colourOfCode := fun _ _ => rfl
+
+/-- **Colouring is the same function of (terminal, options) whether or not the file is checked in a worker**: for every kind of
+    stdout `t`, every reachable state, every job count and schedule, `check_all` prints what the sequential run prints — the
+    lines of each file rendered with the colour decision of the process (`-j N` = `-j 1`), and `check_file_s` in a worker
+    captures exactly the bytes `check_file` prints in the parent. -/
+theorem colour_independent_of_jobs (hkey : KeyDetermines proj f) (o : O) (t : Bool) (g : G K' V) (hg : Inv proj f t g)
+    (paths : List F) (j : Nat) (sched : List (Nat × Nat)) (hall : ∀ i, i < paths.length → i ∈ sched.map (·.1)) :
+    (CliState.checkAll proj f unpackDeb checkRegular checkDeb colourOfCode render o j g paths sched).2
+      = (CliState.checkAll proj f unpackDeb checkRegular checkDeb colourOfCode render o 1 g paths []).2
+    ∧ (CliState.checkAll proj f unpackDeb checkRegular checkDeb colourOfCode render o j g paths sched).2
+      = .ok ((paths.map (fun p => ((checkFileProg unpackDeb checkRegular checkDeb o p).pure f).map (render t))).flatten)
+    ∧ ∀ file, (checkFileS proj f unpackDeb checkRegular checkDeb colourOfCode render o g file).2
+        = (step proj f unpackDeb checkRegular checkDeb colourOfCode render o g file).2 := by
+  have h1 := multi_file_concat unpackDeb checkRegular checkDeb colourOfCode render hkey code_ignores_redirect o j g hg paths sched hall
+  have h2 : (CliState.checkAll proj f unpackDeb checkRegular checkDeb colourOfCode render o 1 g paths []).2
+      = .ok ((paths.map (out f unpackDeb checkRegular checkDeb colourOfCode render t o)).flatten) := by
+    have := (seqRun_inv unpackDeb checkRegular checkDeb colourOfCode render hkey code_ignores_redirect o paths g hg).1
+    simpa [CliState.checkAll] using this
+  refine ⟨h1.trans h2.symm, h1, fun file => ?_⟩
+  exact (check_file_s_is_check_file_captured unpackDeb checkRegular checkDeb colourOfCode render hkey code_ignores_redirect o g hg file).2
+
+/-- the probe of X1-b looks at the redirect … -/
+theorem probe_does_not_ignore_redirect : ¬ IgnoresRedirect colourOfProbe := by
+  intro h
+  have := h true true
+  simp [colourOfProbe] at this
+
+/-- … and **the output depends on the job count**: on a colour terminal, two files, `-j 2` prints plain lines while `-j 1` and
+    the single-file runs print coloured ones; on a pipe (`terminal = false`) all agree — which is why no run on a pipe can see
+    it.  With the code's decision (`colourOfCode`) the same runs agree on the terminal too. -/
+theorem probe_of_swapped_stdout_depends_on_jobs :
+    let run := fun (colourOf : Bool → Bool → Bool) (tty : Bool) (j : Nat) (files : List String) (sched : List (Nat × Nat)) =>
+      lines (CliState.main (K' := String) id (fun (k : String) => k) (fun _ => false) tagCheck (fun _ _ => none) colourOf renderEsc () j tty fresh files sched).1
+    run colourOfProbe true 1 ["a.po", "b.po"] [] = ["\x1b[33ma.po: tag\x1b[0m", "\x1b[33mb.po: tag\x1b[0m"]
+    ∧ run colourOfProbe true 2 ["a.po", "b.po"] [(1, 1), (0, 0)] = ["a.po: tag", "b.po: tag"]
+    ∧ run colourOfProbe true 2 ["a.po", "b.po"] [(1, 1), (0, 0)] ≠ run colourOfProbe true 1 ["a.po"] [] ++ run colourOfProbe true 1 ["b.po"] []
+    ∧ run colourOfProbe false 2 ["a.po", "b.po"] [(1, 1), (0, 0)] = run colourOfProbe false 1 ["a.po", "b.po"] []
+    ∧ run colourOfCode true 2 ["a.po", "b.po"] [(1, 1), (0, 0)] = run colourOfCode true 1 ["a.po", "b.po"] [] := by
+  decide
+end Colour
 
 /-! ### What the `pureCache` pin excludes: a cache keyed on less than its inputs (seeded change C03-a)
 
@@ -278,23 +335,23 @@ theorem stale_key_does_not_determine : ¬ KeyDetermines staleProj staleF := by
 theorem stale_cache_breaks_no_history :
     let g0 : G String String := { patched := true, cache := [] }
     let run := fun (hist : List String) =>
-      lines (step staleProj staleF (fun _ => false) staleCheck (fun _ _ => none) ()
-              (seqRun staleProj staleF (fun _ => false) staleCheck (fun _ _ => none) () g0 hist).1 "ISO-8859-15").2
+      lines (step staleProj staleF (fun _ => false) staleCheck (fun _ _ => none) colourOfCode (fun _ l => l) ()
+              (seqRun staleProj staleF (fun _ => false) staleCheck (fun _ _ => none) colourOfCode (fun _ l => l) () g0 hist).1 "ISO-8859-15").2
     run [] = ["ISO-8859-15:\\xa4"] ∧ run ["ISO-8859-1"] = ["ISO-8859-1:\\xa4"] ∧ run ["ISO-8859-1"] ≠ run [] := by
   decide
 
 example :
     let g0 : G (String × String) String := { patched := true, cache := [] }
     let run := fun (hist : List String) =>
-      lines (step id staleF (fun _ => false) staleCheck (fun _ _ => none) ()
-              (seqRun id staleF (fun _ => false) staleCheck (fun _ _ => none) () g0 hist).1 "ISO-8859-15").2
+      lines (step id staleF (fun _ => false) staleCheck (fun _ _ => none) colourOfCode (fun _ l => l) ()
+              (seqRun id staleF (fun _ => false) staleCheck (fun _ _ => none) colourOfCode (fun _ l => l) () g0 hist).1 "ISO-8859-15").2
     run ["ISO-8859-1"] = run [] := by
   decide
 
 /-- non-vacuity of `multi_file_concat`: three files, two workers, worker 0 gets tasks 2 then 0, worker 1 gets task 1;
     the cache is shared by the tasks of a worker -/
 example :
-    lines (CliState.checkAll id staleF (fun _ => false) staleCheck (fun _ _ => none) () 2
+    lines (CliState.checkAll id staleF (fun _ => false) staleCheck (fun _ _ => none) colourOfCode (fun _ l => l) () 2
             ({ patched := true, cache := [] } : G (String × String) String)
             ["ISO-8859-1", "ISO-8859-15", "ISO-8859-1"] [(2, 0), (1, 1), (0, 0)]).2
       = ["ISO-8859-1:\\xa4", "ISO-8859-15:\\xa4", "ISO-8859-1:\\xa4"] := by
